@@ -34,11 +34,17 @@ func (s *Sim) structural(op *Op, t *txn, fn func()) bool {
 	s.cur = nil
 	if p {
 		s.tracef("%d %s panic", s.OpIdx, op.K)
-		prop := "C01"
+		prop, oracle := "C01", "op.no_failure"
 		if t.rel {
 			prop = "C04"
 		}
-		s.violate(prop, "op.no_failure", op.K, true, "valid %s panicked: %v", op.K, val)
+		for _, o := range s.observers {
+			if o.touched {
+				// an observer was (un)registered from inside a callback of this operation
+				prop, oracle = "C08", "obs.dispatch"
+			}
+		}
+		s.violate(prop, oracle, op.K, true, "valid %s panicked: %v", op.K, val)
 		return false
 	}
 	return true
